@@ -572,7 +572,25 @@ func checkDepositCache(p *an.Prog, r *an.Run) {
 		bad = append(bad, "Set does not write the cache")
 	} else {
 		isUpd := func(in ssa.Instruction) bool { return in == ssa.Instruction(upd) }
-		if in := pathFromBlock(set, set.Blocks[0], isUpd, an.IsReturn); in != nil {
+		// a nil amount carries no balance: returning early for it is not a skipped event
+		cut := map[an.Edge]bool{}
+		an.AllInstrs(set, func(in ssa.Instruction) {
+			iff, ok := in.(*ssa.If)
+			if !ok {
+				return
+			}
+			if b, ok := iff.Cond.(*ssa.BinOp); ok && (b.Op == token.EQL || b.Op == token.NEQ) {
+				isNil := func(v ssa.Value) bool { c, ok := v.(*ssa.Const); return ok && c.IsNil() }
+				if (b.X == ssa.Value(set.Params[2]) && isNil(b.Y)) || (b.Y == ssa.Value(set.Params[2]) && isNil(b.X)) {
+					i := 0
+					if b.Op == token.NEQ {
+						i = 1
+					}
+					cut[an.Edge{From: iff.Block(), To: iff.Block().Succs[i]}] = true
+				}
+			}
+		})
+		if in := pathFromBlockCut(set, set.Blocks[0], func(x ssa.Instruction) bool { return an.IsReturn(x) && !an.Dominates(upd, x) }, cut); in != nil && pathFromBlock(set, set.Blocks[0], isUpd, an.IsReturn) != nil {
 			bad = append(bad, "Set can return at "+p.Pos(in.Pos())+" without recording the amount: a Balance event it skips (e.g. the zero balance after a settlement) leaves the old deposit cached, and it is paid again")
 		}
 		if stripConv(upd.Key) != ssa.Value(set.Params[1]) {
